@@ -314,16 +314,17 @@ func RuleG7(c *Ctx) {
 	}
 	facts++
 	c.Check(okWork, "G7", "Execute:closure-calls-work-once", tgt.Pos(), "the spawned closure does not call the work function exactly once on every path", "one call of work, post-dominating the closure's entry")
-	okDone := len(dones) == 1 && core.PostDominatesEntry(tgt, dones[0]) && len(workCalls) == 1 && core.Precedes(tgt, workCalls[0], dones[0])
+	okDone := len(dones) == 1 && len(workCalls) == 1 && core.PostDominatesEntry(tgt, dones[0])
 	if okDone {
 		if fv, isFV := dones[0].Common().Args[0].(*ssa.FreeVar); !isFV || core.FreeVarBinding(fv) != ssa.Value(wgCell) {
 			okDone = false
 		}
-		if _, isDefer := dones[0].(*ssa.Defer); isDefer {
-			okDone = true && len(dones) == 1 // deferred Done runs at exit: also after work
-			if fv, isFV := dones[0].Common().Args[0].(*ssa.FreeVar); !isFV || core.FreeVarBinding(fv) != ssa.Value(wgCell) {
-				okDone = false
-			}
+		if _, isDefer := dones[0].(*ssa.Defer); !isDefer {
+			// a plain call must come after the work call on every path; a deferred Done runs at function exit
+			okDone = okDone && core.Precedes(tgt, workCalls[0], dones[0])
+		}
+		if _, isGo := dones[0].(*ssa.Go); isGo {
+			okDone = false
 		}
 	}
 	facts++
@@ -361,6 +362,70 @@ func RuleG7(c *Ctx) {
 	}
 	facts++
 	c.Check(okArgs, "G7", "Execute:per-iteration-range-cells", g.Pos(), "the range handed to work is not read from two distinct cells allocated per iteration and left untouched after the spawn (ranges of different tasks could be confused)", "start/end loaded from per-iteration cells never stored after the spawn")
+	// worker limit honoured: the task count is maxCpus[0] whenever a limit is given (the default NumCPU is
+	// used only on the `len(maxCpus) != 1` edge), possibly reduced to nbIterations — callers size their result
+	// channels by the limit they pass (rule G3)
+	{
+		lim := false
+		var why string
+		bound := core.StripConv(cl.bound)
+		// peel the reduction phi(nbTasks, nbIterations)
+		leafs := []ssa.Value{bound}
+		if phi, isPhi := bound.(*ssa.Phi); isPhi {
+			leafs = nil
+			for _, e := range phi.Edges {
+				leafs = append(leafs, e)
+			}
+		}
+		for _, lf := range leafs {
+			phi, isPhi := lf.(*ssa.Phi)
+			if !isPhi {
+				continue
+			}
+			okPhi := len(phi.Edges) == 2
+			sawLimit := false
+			for i, e := range phi.Edges {
+				pred := phi.Block().Preds[i]
+				if call, isCall := e.(*ssa.Call); isCall && core.IsFunc(core.Callee(call.Common()), "runtime", "NumCPU") {
+					// the default may arrive only on the edge where no (single) limit was given
+					ifi, isIf := pred.Instrs[len(pred.Instrs)-1].(*ssa.If)
+					if !isIf {
+						okPhi = false
+						why = "the default NumCPU reaches the task count on an edge that is not the `no limit given` edge"
+						continue
+					}
+					cmp, isCmp := ifi.Cond.(*ssa.BinOp)
+					x, isLen := ssa.Value(nil), false
+					if isCmp {
+						x, isLen = core.IsLenOf(cmp.X)
+					}
+					one, isOne := int64(0), false
+					if isCmp {
+						one, isOne = core.ConstInt(cmp.Y)
+					}
+					edgeIdx := 1
+					if isCmp && cmp.Op == token.NEQ {
+						edgeIdx = 0
+					}
+					if !isCmp || !isLen || !isOne || one != 1 || core.PathOf(x) != "p:maxCpus" || (cmp.Op != token.EQL && cmp.Op != token.NEQ) || pred.Succs[edgeIdx] != phi.Block() {
+						okPhi = false
+						why = "an explicit worker limit can be ignored: NumCPU is also used when len(maxCpus) == 1"
+					}
+					continue
+				}
+				if core.PathOf(e) == "*(p:maxCpus[c:0])" {
+					sawLimit = true
+					continue
+				}
+				okPhi = false
+			}
+			if okPhi && sawLimit {
+				lim = true
+			}
+		}
+		facts++
+		c.Check(lim, "G7", "Execute:worker-limit-honoured", cl.phi.Pos(), "the number of tasks is not maxCpus[0] whenever a limit is given (only reduced to nbIterations): "+why+"; callers that size a channel by the limit they pass would block forever", "nbTasks = maxCpus[0] if given, else NumCPU; reduced to nbIterations when smaller")
+	}
 	// loop bound: counted from 0 by +1 below the task count
 	z, isZ := core.ConstInt(cl.init)
 	c.Check(isZ && z == 0 && cl.step == 1 && cl.op == token.LSS, "G7", "Execute:task-loop", cl.phi.Pos(), "the task loop does not run i = 0 .. nbTasks-1", "for i := 0; i < nbTasks; i++")
